@@ -1166,12 +1166,17 @@ def evaluate(scns, R, work, tag, nproc=16):
                                                    for b in ptxt.split(' P ') if ':' in b)
                 # front end: cell size and hmin
                 ics, ihm = r['cs'][k]
-                if Fraction(ics) != cs:
+
+                def _q(v):
+                    # the implementation may report inf/nan (never a crash of
+                    # the harness: it is a disagreement with the model)
+                    return Fraction(v) if math.isfinite(v) else None
+                if _q(ics) != cs:
                     R.disagree({'scenario': scn, 'step': k, 'cls': c}, H.qstr(cs),
-                               H.qstr(Fraction(ics)), 'cell_size')
-                if hm is not None and Fraction(ihm) != hm:
+                               repr(ics), 'cell_size')
+                if hm is not None and _q(ihm) != hm:
                     R.disagree({'scenario': scn, 'step': k, 'cls': c}, H.qstr(hm),
-                               H.qstr(Fraction(ihm)), 'hmin')
+                               repr(ihm), 'hmin')
                 for mi, sh in enumerate(shas):
                     R.d['traces_validated_against_impl'] += 1
                     if sh != msha:
